@@ -226,7 +226,7 @@ SPECS = {
             {"name": "c20", "n": {"quick": 1200, "thorough": 12000}},
             {"name": "hist", "tag": "c20snap", "extra": "prop=C20", "n": {"quick": 200, "thorough": 3000}, "seed_off": 5},
         ],
-        "explanation": "Theorems about the ChangeStore model (Cache/ChangeStore.v): transparency and no-refetch for every disciplined call sequence; the model is compared with the real mongo.ChangeStore on random op sequences over tables with holes; the transparency oracle is also evaluated directly on the implementation.",
+        "explanation": "Theorems about the ChangeStore model (Cache/ChangeStore.v): transparency and no-refetch for every disciplined call sequence, sequences in which the fetcher fails in the middle of an EnsureChanges included (only the ranges fetched before the failure count as fetched: C20_failed_fetch_marks_only_fetched); the model is compared with the real mongo.ChangeStore on random op sequences over tables with holes; the transparency oracle is also evaluated directly on the implementation.",
         "assumptions": [
             "caller obligations of mongo/client.go (inserted items are table rows; a range is expanded only after its rows were inserted; new rows are not yet covered) are hypotheses of the theorem; the MongoDB client code that must honour them cannot run here",
             "btree and sort.Slice are abstracted to sorted lists",
